@@ -3,11 +3,12 @@ CONSTANTS
   NoKey = "-"
   DocDels <- MCDocDels
   Authors = {"a", "b", "c", "s"}
-  NewDocs = {2, 3}
+  NewDocs = {3}
   InPlace = FALSE
   MaxOps = 4
   MaxActs = 1
   MaxForks = 1
+  EmitEvery = 40
 INIT Init
 NEXT Next
 VIEW view
